@@ -189,7 +189,8 @@ var decShapes = []string{
 	"{for: {var: X}, cmd: echo}", "{for: [a, b], task: '{{.ITEM}}'}", "{for: {matrix: {}}, cmd: x}", "{for: {matrix: {A: 1}}, cmd: x}", "{for: {matrix: {A: {ref: .N}}}, cmd: x}",
 	"{for: sources, cmd: x}", "{for: {var: X, split: ''}, cmd: x}", "{defer: }", "{defer: {task: }}", "{defer: [a]}", "{name: A, enum: []}", "{name: , enum: [a]}",
 	"{sh: 'false', msg: 5}", "windows/amd64", "/", "linux/", "a/b/c", "{os: x}", "{taskfile: ./inc.yml}", "{taskfile: }", "{taskfile: ./inc.yml, vars: {A: {}}}",
-	"{taskfile: ./inc.yml, aliases: x}", "{taskfile: ./inc.yml, excludes: {a: b}}", "{taskfile: ./inc.yml, flatten: yes, optional: 3}", "{taskfile: ./missing.yml, optional: true}",
+	"{taskfile: ./inc.yml, aliases: x}", "{taskfile: ./inc.yml, excludes: [default]}", "{taskfile: ./inc.yml, excludes: [it, default], aliases: [y]}",
+	"{taskfile: ./inc.yml, flatten: true, excludes: [default]}", "{taskfile: ./inc.yml, internal: true, dir: ./nowhere}", "[default]", "[it]", "{taskfile: ./inc.yml, excludes: {a: b}}", "{taskfile: ./inc.yml, flatten: yes, optional: 3}", "{taskfile: ./missing.yml, optional: true}",
 	"https://example.invalid/r.git", "https://example.invalid/r.git//Taskfile.yml?ref=main", "git@example.invalid:r.git", "http://127.0.0.1:9/Taskfile.yml", "file:///", "://", "{group: {begin: x}}", "{group: }", "prefixed", "nosuch",
 }
 
